@@ -477,6 +477,62 @@ theorem nonlinearE_error_iff (src dst : Shape) (back fwd : PtTr) (scaleAt : Rat 
         obtain ⟨e, he⟩ := (read_shrink_error_iff (min s.1 s.2) tol1em3).mpr h
         exact ⟨e, by rw [he]⟩
 
+/-! ## a scale estimate that is not a number -/
+
+/-- With an estimate that is never NaN the NaN-aware plan is the error-carrying plan, whatever the fallback flag. -/
+theorem nonlinearX_eq_E (fb : Bool) (src dst : Shape) (back fwd : PtTr) (sc : Rat × Rat → Res (Rat × Rat))
+    (padding align : Option Int) :
+    reprojectNonlinearX fb src dst back fwd (fun c => match sc c with | .ok s => .ok s | .error e => .err e) padding align =
+      reprojectNonlinearE src dst back fwd sc padding align := by
+  unfold reprojectNonlinearX reprojectNonlinearE
+  simp only
+  generalize relativeRois src dst back fwd 5 (padOr1 padding) (normAlign align) = r
+  by_cases hE : ROI.isEmpty r.2 = true
+  · simp only [hE, not_true_eq_false, if_false]
+  · simp only [hE]
+    cases hv : sc ((((r.2.2.start + r.2.2.stop : Int) : Rat) / 2, ((r.2.1.start + r.2.1.stop : Int) : Rat) / 2)) <;> rfl
+
+/-- **On HEAD a NaN scale at the centre of a non-empty `roi_dst` is an `AssertionError`** — the plan that was just
+computed is lost (known finding; the centre of the destination region has no image in the source CRS). -/
+theorem nan_centre_raises_on_head (src dst : Shape) (back fwd : PtTr) (scaleAt : Rat × Rat → ScaleRes)
+    (padding align : Option Int)
+    (hne : ROI.isEmpty (relativeRois src dst back fwd 5 (padOr1 padding) (normAlign align)).2 = false)
+    (hnan : scaleAt
+      ((((relativeRois src dst back fwd 5 (padOr1 padding) (normAlign align)).2.2.start +
+          (relativeRois src dst back fwd 5 (padOr1 padding) (normAlign align)).2.2.stop : Int) : Rat) / 2,
+       (((relativeRois src dst back fwd 5 (padOr1 padding) (normAlign align)).2.1.start +
+          (relativeRois src dst back fwd 5 (padOr1 padding) (normAlign align)).2.1.stop : Int) : Rat) / 2) = .nan) :
+    reprojectNonlinearX false src dst back fwd scaleAt padding align = .error .assertion := by
+  unfold reprojectNonlinearX
+  simp only [hne, Bool.false_eq_true, not_false_eq_true, if_true, hnan, if_false]
+
+/-- **The repair recovers the plan**: with the fallback, if the centre of `roi_src` has an image and the estimate there
+is a positive scale, the call succeeds with the very regions that were computed and that scale. -/
+theorem fallback_recovers (src dst : Shape) (back fwd : PtTr) (scaleAt : Rat × Rat → ScaleRes)
+    (padding align : Option Int) (x y : Rat) (sc : Rat × Rat)
+    (hne : ROI.isEmpty (relativeRois src dst back fwd 5 (padOr1 padding) (normAlign align)).2 = false)
+    (hnan : scaleAt
+      ((((relativeRois src dst back fwd 5 (padOr1 padding) (normAlign align)).2.2.start +
+          (relativeRois src dst back fwd 5 (padOr1 padding) (normAlign align)).2.2.stop : Int) : Rat) / 2,
+       (((relativeRois src dst back fwd 5 (padOr1 padding) (normAlign align)).2.1.start +
+          (relativeRois src dst back fwd 5 (padOr1 padding) (normAlign align)).2.1.stop : Int) : Rat) / 2) = .nan)
+    (himg : fwd
+      ((((relativeRois src dst back fwd 5 (padOr1 padding) (normAlign align)).1.2.start +
+          (relativeRois src dst back fwd 5 (padOr1 padding) (normAlign align)).1.2.stop : Int) : Rat) / 2,
+       (((relativeRois src dst back fwd 5 (padOr1 padding) (normAlign align)).1.1.start +
+          (relativeRois src dst back fwd 5 (padOr1 padding) (normAlign align)).1.1.stop : Int) : Rat) / 2) = (.fin x, .fin y))
+    (hsc : scaleAt (x, y) = .ok sc) (hpos : 0 < min sc.1 sc.2) :
+    ∃ p, reprojectNonlinearX true src dst back fwd scaleAt padding align = .ok p ∧
+      (p.roiSrc, p.roiDst) = relativeRois src dst back fwd 5 (padOr1 padding) (normAlign align) ∧
+      p.scale2 = sc ∧ 1 ≤ p.readShrink := by
+  unfold reprojectNonlinearX
+  simp only [hne, Bool.false_eq_true, not_false_eq_true, if_true, hnan, himg, hsc]
+  cases hp : pickReadScale (min sc.1 sc.2) with
+  | error e =>
+    have := (read_shrink_error_iff _ _).mp ⟨e, hp⟩
+    exact absurd hpos (not_lt.mpr this)
+  | ok rs => exact ⟨_, rfl, rfl, rfl, read_shrink_pos_int _ _ _ hp⟩
+
 /-! ## non-vacuity: concrete instances of the end-to-end statements -/
 
 -- same CRS, two GeoBoxes, half-pixel shift (no paste): hypotheses of `top_linear_covers` / `top_within` hold
